@@ -10,6 +10,7 @@ keys and values, nothing else, no empty directory, no dangling link), (iii) a se
 import itertools
 import json
 import os
+import shutil
 
 from .. import canon, engine_h, env, scratch
 from ..runner import Report
@@ -26,6 +27,8 @@ UNIVERSES = {
     "heterogeneous": [{"a": 0}, {"a": 1, "b": 2}, {"b": 3}, {"a": 0, "z": 1}],
     "colliding-text": [{"a": 1}, {"a": "1"}, {"a": 1.0}, {"a": True}],
     "separator": [{"a": "x/y"}, {"a": 0}, {"a": 1}],
+    # a state point key spelled like the link name: the link of one job and a directory of another compete for one path
+    "job-key": [{"a": 1}, {"a": 1, "job": 2}, {"a": 2, "job": 3}],
 }
 PATH_SPECS = ["id/{job.id}", "const", "a/{a}"]
 
@@ -162,6 +165,8 @@ def execute(hist):
     n = 0
 
     def bad(kind, msg, **extra):
+        if _U["name"] == "job-key":
+            extra = {"key_named_like_link": True}  # one finding, whatever the symptom (see known_findings.json)
         viol.append({"sig": dict(kind=kind, **extra), "scenario": _U["name"],
                      "input": {"universe": _U["name"], "history": [list(o) for o in hist], "salt": salt},
                      "expected": "reference view", "observed": msg, "msg": msg})
@@ -185,6 +190,12 @@ def execute(hist):
                 job = p.open_job(present.pop(op[1]))
                 job.statepoint = sps[op[2]]
                 present[op[2]] = sps[op[2]]
+            elif name == "wipe_view":
+                # the user deletes the view directory (or a part of it) by hand; the next build starts from what is left
+                target = view if op[1] == "all" else next((os.path.join(view, x) for x in sorted(os.listdir(view))
+                                                           if os.path.isdir(os.path.join(view, x)) and not os.path.islink(os.path.join(view, x))), None)
+                if target is not None:
+                    shutil.rmtree(target)
             else:
                 if name == "view_all":
                     sel_idx, path = sorted(present), None
@@ -217,8 +228,15 @@ def execute(hist):
                         bad("rejected-input-altered-view", f"{op} raised {type(exc).__name__} but the view changed", why=ref[1])
                     continue
                 if exc is not None:
-                    bad("create-view-raises", f"{op} with selection {selected} raised {type(exc).__name__}: {exc}",
-                        exc=type(exc).__name__, empty_selection=not selected)
+                    # whatever the reason: a call that fails must not have altered the existing view
+                    if canon.snapshot(view) != before_snap:
+                        bad("failed-call-altered-view", f"{op} raised {type(exc).__name__}: {exc} and the existing view changed: "
+                            f"{canon.snap_diff(before_snap, canon.snapshot(view))[:4]}")
+                    elif _U["name"] == "job-key" and isinstance(exc, RuntimeError):
+                        pass  # the link of one job would sit where a directory of another must be: a legitimate rejection
+                    else:
+                        bad("create-view-raises", f"{op} with selection {selected} raised {type(exc).__name__}: {exc}",
+                            exc=type(exc).__name__, empty_selection=not selected)
                     continue
                 for kind, msg in judge_tree(after, selected, ws, ref):
                     bad(kind, f"after {list(op)} (selection {list(selected.values())}): {msg}", empty_selection=not selected,
@@ -259,6 +277,10 @@ def execute(hist):
         else:
             enabled.append(["add", i])
     enabled.append(["view_all"])
+    if tree:
+        enabled.append(["wipe_view", "all"])
+        if any(v == "d" for v in tree.values()):
+            enabled.append(["wipe_view", "first-subdirectory"])
     idxs = sorted(present)
     for r in range(0, min(3, len(idxs)) + 1):
         for sub in itertools.combinations(idxs, r):
